@@ -82,7 +82,7 @@ def gen_program(rng, n=None):
     # parameters, so that the statically-known analysis must not confuse a parameter with a global
     collide = rng.random() < 0.3
     if collide:
-        pnames = ["x", "addr", "a", "b", "r", "s", "rel"]
+        pnames = ["x", "addr", "a", "b", "r", "s", "rel", "pc"]
         rng.shuffle(pnames)
         k = rng.randrange(1, 4)
         for nm in pnames[:k]:
